@@ -101,9 +101,10 @@ NoTerminalGaps(T) == Ok(T) => \A o \in 1..Len(T.out) : LET r == T.out[o].rows IN
 \* for maps PretextView can produce: every gap run is the join gap or the input's gap run between the same two ends
 GapProvenance(T) == (Ok(T) /\ T.valid = 1) =>
    LET ij == AllJunctions(T.input)  oj == AllJunctions(T.out) IN
-   \* (a run of several input gap rows appears in reverse order when the junction is traversed the other way round)
-   \A n \in 1..Len(oj) : oj[n].gaps = <<>> \/ oj[n].gaps = <<JoinGap>>
-                          \/ \E m \in 1..Len(ij) : ij[m].pair = oj[n].pair /\ (ij[m].gaps = oj[n].gaps \/ Reverse(ij[m].gaps) = oj[n].gaps)
+   \* (the sentence is about each gap ROW: it must be one of the input gap rows between the same two contig ends - same length and type -
+   \* or the join gap; a run of several input gap rows may come out reversed, or - for a scaffold rebuilt from left-over contigs - shortened)
+   \A n \in 1..Len(oj) : \A q \in 1..Len(oj[n].gaps) :
+        oj[n].gaps[q] = JoinGap \/ \E m \in 1..Len(ij) : ij[m].pair = oj[n].pair /\ \E w \in 1..Len(ij[m].gaps) : ij[m].gaps[w] = oj[n].gaps[q]
 NonNeighboursUseJoinGap(T) == (Ok(T) /\ T.valid = 1) =>
    LET ia == AdjSet(AllJunctions(T.input))  oj == AllJunctions(T.out) IN
    \A n \in 1..Len(oj) : oj[n].pair \notin ia => oj[n].gaps = <<JoinGap>>
